@@ -31,6 +31,10 @@ type ConnPlan struct {
 	// (WINDOW_UPDATE on the connection / on the request's stream), "priority" (PRIORITY for an idle stream),
 	// "ping", "settings"
 	H2Extra []string `json:"h2_extra,omitempty"`
+	// IdleChatterMs (HTTP/2 only): after its last request the client keeps sending PING, WINDOW_UPDATE(0),
+	// PRIORITY and SETTINGS frames, one every so many milliseconds, but never another request: in HTTP terms
+	// the connection is idle
+	IdleChatterMs int64 `json:"idle_chatter_ms,omitempty"`
 	// FirstRecordVersion (serve): when non-zero, the legacy version field in the header of the first TLS
 	// record (the ClientHello's) is overwritten with it. crypto/tls ignores that field; fingerproxy's
 	// ClientHello capture accepts 0x0300..0x0304 only.
@@ -249,6 +253,30 @@ func (r *ClientRun) run(tag string) {
 			}
 		}
 		r.markReady()
+		if cc.H2 != nil && r.Plan.IdleChatterMs > 0 {
+			for k := 0; ; k++ {
+				select {
+				case <-r.finish:
+					c.Conn.Close()
+					return
+				case <-time.After(time.Duration(r.Plan.IdleChatterMs) * time.Millisecond):
+				}
+				var err error
+				switch k % 4 {
+				case 0:
+					err = cc.H2.Fr.WritePing(false, [8]byte{byte(k)})
+				case 1:
+					err = cc.H2.Fr.WriteWindowUpdate(0, 1)
+				case 2:
+					err = cc.H2.Fr.WritePriority(uint32(5001+2*k), xhttp2.PriorityParam{StreamDep: 0, Weight: 1})
+				case 3:
+					err = cc.H2.Fr.WriteSettings(xhttp2.Setting{ID: xhttp2.SettingInitialWindowSize, Val: 65535 + uint32(k)})
+				}
+				if err != nil {
+					break
+				}
+			}
+		}
 		<-r.finish
 		c.Conn.Close()
 	}
